@@ -23,6 +23,8 @@ type Engine struct {
 	Funcs   map[string]*ssa.Function // canonical key -> function
 	CS      *Contracts
 	chanMsgs map[string]*ChanSpec
+	pendingAtomic bool
+	lockRefs map[string]*lockRef
 
 	ctr      int
 	decls    map[string]string
@@ -360,6 +362,9 @@ func (E *Engine) installAxioms() (err error) {
 			panic(r)
 		}
 	}()
+	for _, n := range E.CS.NonNil {
+		E.nonNilGlobals[n] = true
+	}
 	E.cur = &fnCtx{key: "axioms", compSort: map[string]string{}, touched: map[string]bool{}, compPtr: map[string]bool{}, factSeen: map[string]bool{}}
 	for _, cl := range E.CS.Axioms {
 		ev := &cenv{E: E, ctx: cl.Ctx, vars: map[string]*Val{}, heap: map[string]string{}}
